@@ -58,6 +58,14 @@ CHECKS = {
             '(thorough: double-bit) flips of frames on every framing and every single-character substitution of ASCII frames.',
             'One-directional by design (C11 owns lost neighbours); reference CRC/LRC/hex/MBAP rules in vlib/refframe.py.',
             'DESIGN.md 4 C07'),
+    'C08': ('hypothesis transaction histories against scripted peers in virtual time (conformant / stale / foreign frames); oracle = returned object must match a frame that entered the receive path during the call and carry the request ids',
+            'Generated histories of 1..6 transactions on one real client (TCP, serial rtu/ascii/binary, RTU-over-TCP) whose '
+            'scripted peer places the conformant reply and/or frames of other transaction ids, units, function codes or a '
+            'duplicate of the previous reply in the receive path; the returned value must be an error object or a response with '
+            'the request\'s tid/unit/function whose fields equal the independent decode of a frame received during that call, '
+            'and a lone conformant reply must be returned with exactly the scripted values; tid counter started near the wrap.',
+            'Virtual-time fake sockets / serial ports (vlib/transports.py); serial units 1..247.',
+            'DESIGN.md 4 C08'),
     'C09': ('hypothesis request histories x 7 in-process front-ends x framings x contexts x flags x delivery groupings; oracle = independent frame parser + expected response sequence',
             'Generated histories of well-formed requests of every kind (valid, invalid, unassigned functions, hosted/absent/'
             'broadcast units, listen-only last) delivered one or several per read to each of the seven server front-ends driven '
